@@ -27,6 +27,7 @@ type drainReq struct {
 	replies         int
 	replyStep       int
 	dur             time.Duration
+	bigReply        bool // its reply is larger than the broker's max_payload: the connection refuses it
 }
 
 type drainProc struct {
@@ -58,6 +59,9 @@ func (p *drainProc) Process(in, out *frugal.FProtocol) error {
 		return err
 	}
 	_, err = out.Transport().Write([]byte("ok:" + ids))
+	if r.bigReply {
+		out.Transport().Write(make([]byte, 600))
+	}
 	return err
 }
 
@@ -75,6 +79,12 @@ func natsdrainHarness(rc *RunCtx) {
 	s := rc.NewSim(rc.Scale(40000, 120000), 10*time.Minute)
 	h := &drainHarness{rc: rc, s: s, reqs: map[int]*drainReq{}}
 	b := NewSimBroker(rc)
+	smallPayload := tp.Intn("maxpayload", 4) == 3
+	if smallPayload {
+		// a broker whose max_payload is below frugal's own reply limit: some replies are refused by the connection
+		b.MaxPayload = 300
+	}
+	closeAtOnce := tp.Intn("closeafter", 3) == 2
 	workers := 1 + tp.Intn("cfg", rc.Scale(4, 6))
 	qlen := 1 + tp.Intn("cfg", rc.Scale(8, 16))
 	nreq := 1 + tp.Intn("cfg", rc.Scale(30, 80))
@@ -189,6 +199,10 @@ func natsdrainHarness(rc *RunCtx) {
 		for i := 0; i < nreq; i++ {
 			id := i + 1
 			h.reqs[id] = &drainReq{id: id, dur: durChoices[tp.Intn("peer", len(durChoices))]}
+			if smallPayload && tp.Intn("maxpayload", 4) == 0 {
+				h.reqs[id].bigReply = true
+				rc.Fault("reply-refused-by-connection-max-payload")
+			}
 			if h.reqs[id].dur > 0 {
 				rc.Fault("slow-handler")
 			}
@@ -220,6 +234,14 @@ func natsdrainHarness(rc *RunCtx) {
 			inject(id)
 		}
 		simrt.Recv(siteServe, serveDone)
+		if closeAtOnce {
+			// "Do NOT close the nats connection until Serve() returns": it has, so the
+			// application closes it (Close flushes what the connection has buffered)
+			rc.Fault("connection-closed-as-soon-as-serve-returns")
+			simrt.Block(site)
+			nc.Close()
+			simrt.Yield(site)
+		}
 		// let everything in flight settle, then flush the connection
 		simrt.Block(site)
 		time.Sleep(2 * time.Second)
@@ -277,7 +299,7 @@ func natsdrainHarness(rc *RunCtx) {
 				if r.handlerDoneStep > serveReturnedStep && serveReturnedStep > 0 {
 					rc.Violate("C20", "processed-after-serve-returned", "nats", fmt.Sprintf("request %d finished at step %d, Serve returned at %d", id, r.handlerDoneStep, serveReturnedStep))
 				}
-				if r.replies == 0 {
+				if r.replies == 0 && !r.bigReply {
 					rc.Violate("C20", "accepted-request-not-answered", "nats", fmt.Sprintf("request %d was processed but its reply never reached the broker", id))
 				}
 			}
@@ -286,7 +308,7 @@ func natsdrainHarness(rc *RunCtx) {
 				rc.Violate("C20", "processed-after-stop", "nats", fmt.Sprintf("request %d was published after Stop had returned and was still processed", id))
 			}
 		default:
-			if r.handlerRuns > 0 && r.replies == 0 {
+			if r.handlerRuns > 0 && r.replies == 0 && !r.bigReply {
 				rc.Violate("C20", "processed-not-answered", "nats", fmt.Sprintf("request %d (in flight at Stop) was processed but not answered", id))
 			}
 		}
